@@ -490,8 +490,17 @@ pub struct Poison {
 	pub kind: PoisonKind,
 }
 
+thread_local! {
+	/// armed by a check before it starts a serialization: at serde call `.0` of the NEXT presentation created on this
+	/// thread, the caller's `Serialize` impl runs `.1` (it serializes something else, with another configuration, in
+	/// the middle of the outer serialization: re-entrancy). Taken by `PresCtx::new`, so nested presentations are not
+	/// affected.
+	pub static REENTER: std::cell::RefCell<Option<(usize, Box<dyn Fn()>)>> = const { std::cell::RefCell::new(None) };
+}
+
 /// Shared, per-serialization context of a presentation
 pub struct PresCtx<'a> {
+	reenter: Option<(usize, Box<dyn Fn()>)>,
 	pub env: &'a Env,
 	pub cfg: PresCfg,
 	pub poison: Option<Poison>,
@@ -507,6 +516,7 @@ pub struct PresCtx<'a> {
 impl<'a> PresCtx<'a> {
 	pub fn new(env: &'a Env, cfg: PresCfg, poison: Option<Poison>) -> Self {
 		PresCtx {
+			reenter: REENTER.with(|r| r.borrow_mut().take()),
 			env,
 			cfg,
 			poison,
@@ -550,6 +560,11 @@ impl<'a> serde::Serialize for Presented<'a> {
 		let ctx = self.ctx;
 		let call = ctx.calls.get();
 		ctx.calls.set(call + 1);
+		if let Some((at, f)) = &ctx.reenter {
+			if *at == call {
+				f();
+			}
+		}
 		let mut record_poison: Option<PoisonKind> = None;
 		if let Some(p) = ctx.poison {
 			if p.at_call == call {
